@@ -364,6 +364,7 @@ theorem queuePeek_shape (v : Variant) (q : DecodeQueue) (h : DInv q) (hc : q.cod
   split at he
   · cases he; exact Or.inl rfl
   rw [hc] at he
+  unfold peekDec at he
   simp only [hmin] at he
   split at he
   · cases he; exact Or.inl rfl
@@ -372,14 +373,14 @@ theorem queuePeek_shape (v : Variant) (q : DecodeQueue) (h : DInv q) (hc : q.cod
     split at he
     · cases he
     · cases he
-    · split at he <;> split at he
-      all_goals first
-        | (cases he; simp only [peekQ, peekSt, hc]; done)
-        | (unfold Mem.rd at he
-           split at he
-           · simp only [Res.bind_ok, Res.pure_eq] at he
-             cases he; simp only [peekQ, peekSt, hc]
-           · cases he)
+    · cases he; simp only [peekQ, peekSt]
+    · split at he
+      · cases he; simp only [peekQ, peekSt]
+      · unfold Mem.rd at he
+        split at he
+        · simp only [Res.bind_ok, Res.pure_eq] at he
+          cases he; simp only [peekQ, peekSt]
+        · cases he
 
 theorem take_window_drop (l : List Byte) (p n : Nat) : l.take p ++ (l.drop p).take n ++ l.drop (p + n) = l := by
   rw [List.append_assoc, ← List.drop_drop, List.take_append_drop, List.take_append_drop]
@@ -562,6 +563,7 @@ theorem queuePeek_total (v : Variant) (q : DecodeQueue) (h : DInv q) (hc : q.cod
     split at he
     · subst he; exact ⟨_, _, _, rfl⟩
     rw [hc] at he
+    unfold peekDec at he
     simp only [hmin] at he
     split at he
     · subst he; exact ⟨_, _, _, rfl⟩
@@ -593,20 +595,20 @@ theorem queuePeek_total (v : Variant) (q : DecodeQueue) (h : DInv q) (hc : q.cod
       split at he
       · rename_i heq; exact absurd heq hnf.1
       · rename_i heq; exact absurd heq hnf.2
-      · split at he <;> split at he
-        all_goals first
-          | (subst he; exact ⟨_, _, _, rfl⟩)
-          | (rename_i hno; simp at hno; done)
-          | (unfold Mem.rd at he
-             split at he
-             · simp only [Res.bind_ok, Res.pure_eq] at he
-               subst he; exact ⟨_, _, _, rfl⟩
-             · rename_i hret _ hoob
-               exfalso
-               apply hoob
-               rw [hwr]
-               have := hbound (fun e he' => hret e he')
-               omega)
+      · subst he; exact ⟨_, _, _, rfl⟩
+      · rename_i n hval
+        split at he
+        · subst he; exact ⟨_, _, _, rfl⟩
+        · unfold Mem.rd at he
+          split at he
+          · simp only [Res.bind_ok, Res.pure_eq] at he
+            subst he; exact ⟨_, _, _, rfl⟩
+          · rename_i hoob
+            exfalso
+            apply hoob
+            rw [hwr]
+            have := hbound (fun e he' => by rw [hval] at he'; cases he')
+            omega
   exact key _ rfl
 
 /-- `mpt_queue_peek` keeps offsets and storage bounds, any data -/
